@@ -14,6 +14,12 @@ CHECKS = {
         "text": "For every transaction of the alphabet (add, add+delete, update, delete-only, schema add/remove field, empty) x ending (commit merge=False / default merge with MERGE_SMALL firing / optimize / CLEAR / custom merge / cancel / exception in with-block) x compound or loose segments, from every start state of the family (empty, 1-2 segments, with deletions, 5 small segments): a crash after every storage-layer mutation, with torn variants of every open file. Each materialised crash image must open, equal exactly the old or the new state (monotonically; old before commit() is entered, new after it returns, always old for cancel), be searchable, accept a new writer, and that writer's commit must leave no orphaned segment file, extra TOC or temp directory.",
         "note": "Trusted: the process-crash model (closed files, renames and deletes are durable in order; any write-record prefix of an open file may be lost), the canonical dump in mc/checks/c02.py. Power-loss reordering is outside the model.",
     },
+    "C03": {
+        "engine": "E3", "level": "model_checking",
+        "technique": "stateless schedule exploration of a real writer thread against a real reader thread under a cooperative scheduler with iterative preemption bounding at storage-call granularity; oracle = per-generation probe model from a sequential run",
+        "text": "For storage {file mmap, file no-mmap, RAM} x {compound, loose} x 11 writer histories (append, optimize, delete-only, add+optimize, CLEAR, default merge, update, delete+optimize and two-transaction histories): a reader opens a searcher, probes stored fields/lexicon/postings/search, probes lazily opened parts (sort column, vectors), asks up_to_date(), refreshes, probes, opens a fresh searcher and probes, while the writer commits; every schedule with <=2 (thorough 3) preemptions runs on the real code. Every probe must equal the model of the generation the searcher reports; opened/refreshed searchers must report a generation between the last commit completed before the call and the last completed by its end; up_to_date() must agree; no exception may escape.",
+        "note": "Trusted: scheduler owns storage-level nondeterminism (threads stand in for processes); generation models come from a sequential run of the same history; commit instant = TOC rename.",
+    },
     "C04": {
         "engine": "E3", "level": "model_checking",
         "technique": "stateless schedule exploration of real writer threads under a cooperative scheduler with iterative preemption bounding (storage-call, lock and polling-sleep granularity), monitors at every step and an end-state oracle",
